@@ -34,7 +34,7 @@ def run(ctx):
     for e in ENTRIES:
         if ctx.only and e not in ctx.only:
             continue
-        jobs.append(lambda e=e: V.run_entry(ctx, m, e, 20, timeout=900 if ctx.tier == 'quick' else 3600,
+        jobs.append(lambda e=e: V.run_entry(ctx, m, e, 7, harness_unwind=17, timeout=900 if ctx.tier == 'quick' else 3600,
                                             bounds='T<=%d, E<=2, M<=2, D=3' % T, object_bits=14))
     V.run_parallel(jobs)
 
